@@ -51,7 +51,7 @@ def is_any_entry(x):
 # ---- UTC time -------------------------------------------------------------------------
 
 _STRICT = re.compile(r"([0-9]{4})-([0-9]{2})-([0-9]{2})T([0-9]{2}):([0-9]{2}):([0-9]{2})Z", re.ASCII)
-_LENIENT = re.compile(r"\s*[+-]?(\d{1,6})-(\d{1,2})-(\d{1,2})[Tt](\d{1,2}):(\d{1,2}):(\d{1,2})(?:[.,]\d+)?[Zz]\s*",
+_LENIENT = re.compile(r"[+-]?(\d{1,6})-(\d{1,2})-(\d{1,2})[Tt](\d{1,2}):(\d{1,2}):(\d{1,2})(?:[.,]\d+)?[Zz]",
                       re.UNICODE)
 _DIM = [31, 28, 31, 30, 31, 30, 31, 31, 30, 31, 30, 31]
 
@@ -70,8 +70,9 @@ def _calendar(y, mo, d, h, mi, s, max_hour=23, max_sec=59, min_year=1):
 def utc_time(x):
     """YES: strict yyyy-mm-ddThh:mm:ssZ over ASCII digits naming a real instant (year 1..9999).
     GRAY: a looser spelling some reading of 'ISO 8601 UTC time' accepts (unpadded fields, other
-    digits, lower-case t/z (the letter T is required), surrounding whitespace, leap second, year 0, hour 24).
-    NO: everything else, including every non-str."""
+    digits, lower-case t/z (the letter T is required), leap second, year 0, hour 24, a fraction, a sign).
+    NO: everything else, including every non-str and every string with characters before or after the time (white space, a
+    trailing newline: no reading of ISO 8601 has them, and 'regex with $' accepting "...Z\n" is the classic way they get in)."""
     if type(x) is not str:
         return NO
     m = _STRICT.fullmatch(x)
